@@ -645,3 +645,39 @@ def rule_slot_table_copy(ctx):
                 ctx.violated("SLOTCOPY", key, f.where(x[4]), "`%s` moves open files to new positions of the file table: the SD file ids already handed out are positions in that table" % render(x)[:70])
     ctx.floor("SLOTCOPY", 1, n, "(copies out of the _cdfs table)")
     return n
+
+
+def rule_table_bound_reset(ctx):
+    """TABLEFREE (C13): ids that index a global table are validated as `id < N ? G[id] : NULL` with N a global count of positions
+    in use.  A routine that releases the table (`free(G)` / `G = NULL`) must reset N in the same breath; otherwise every id below
+    the stale N is looked up through the NULL (or freed) table — a stale id crashes instead of being rejected."""
+    from .facts import kind, strip, walk, render, base_var, is_int
+    prog = ctx.prog
+    pairs = set()
+    gl = lambda e: kind(strip(e)) == "var" and strip(e)[2] in ("g", "s")  # global / file-static
+    for f in prog.lib_funcs():
+        for _b, _i, _s, x in f.nodes(True):
+            if x[0] != "cond":
+                continue
+            bounds = [strip(y[3])[1] for y in walk(x[1], True) if y[0] == "bin" and y[1] == "<" and gl(y[3])]
+            tabs = [strip(y[1])[1] for y in walk(x[2], True) if y[0] == "idx" and gl(y[1])]
+            for g in tabs:
+                for nvar in bounds:
+                    pairs.add((g, nvar, f.tu))
+    n = 0
+    for g, nvar, tu in sorted(pairs):
+        for f in prog.lib_funcs():
+            if f.tu != tu:
+                continue
+            frees = [x for _b, _i, _s, x in f.nodes(True) if x[0] == "asg" and x[1] == "=" and kind(strip(x[2])) == "var" and strip(x[2])[1] == g and is_int(x[3], 0)]
+            if not frees:
+                continue
+            n += 1
+            key = "TABLEFREE:%s:%s" % (f.name, g)
+            resets = [x for _b, _i, _s, x in f.nodes(True) if x[0] == "asg" and x[1] == "=" and kind(strip(x[2])) == "var" and strip(x[2])[1] == nvar]
+            if resets:
+                ctx.holds("TABLEFREE", key, f.where(frees[0][4]), "`%s = NULL` comes with `%s`" % (g, render(resets[0])[:30]), nontrivial=True)
+            else:
+                ctx.violated("TABLEFREE", key, f.where(frees[0][4]), "%s releases the table `%s` but leaves its bound `%s` as it was: ids below the stale bound are then looked up through the NULL table" % (f.name, g, nvar))
+    ctx.floor("TABLEFREE", 1, n, "(routines that release an id-indexed global table)")
+    return n
